@@ -136,6 +136,11 @@ func decoded(s string) string {
 }
 
 func wlCase(url string, e *env, proto, scen, s, desc string) {
+	if len(s) > 200 {
+		announce("wl %s %s S=%d bytes %q... (%s)", proto, scen, len(s), s[:200], desc)
+	} else {
+		announce("wl %s %s S=%q (%s)", proto, scen, s, desc)
+	}
 	mu.Lock()
 	e.recovers = 0
 	e.panics = nil
